@@ -255,10 +255,16 @@ default : str
     output format when the command line does not tell
 """
     scanner = argparse.ArgumentParser(add_help=False)
-    scanner.add_argument('--output', '-o', default='')
-    scanner.add_argument('--output-format', '-of', default=None)
+    # (a missing value is reported later, by the real parser)
+    scanner.add_argument('--output', '-o', nargs='?', const='', default='')
+    scanner.add_argument('--output-format', '-of', nargs='?', default=None)
     scanner.add_argument('--latex', '-l', dest='output_format',
                          action='store_const', const='latex')
+    # (the other short options, which may be clustered with the ones
+    # above as in `-ql` or `-qo file.tex`)
+    scanner.add_argument('--quiet', '-q', action='store_true')
+    scanner.add_argument('--verbose', '-v', action='store_true')
+    scanner.add_argument('--seed', '-S', nargs='?', default=None)
     markers = {'dimacs': 'c ', 'latex': '% ', 'opb': '* '}
     fileformat = None
     try:
